@@ -7,6 +7,7 @@ package conv
 
 import (
 	"fmt"
+	"time"
 
 	"github.com/dominant-strategies/go-quai/common"
 	"github.com/dominant-strategies/go-quai/core/types"
@@ -88,7 +89,27 @@ func (s *Sim) MineOn(parent int, wantOrder int) (int, error) {
 		}
 	}
 	if s.EditPending != nil {
-		s.EditPending(ph)
+		// the pending block's body is kept under the seal hash of its header: register the edited header the
+		// way the node does for a miner-specific coinbase (Slice.SetBestPh -> AddPendingWorkObjectBody)
+		for try := 0; ; try++ {
+			s.EditPending(ph)
+			want := ph.WorkObjectHeader().SealHash()
+			n.ZoneCore().Slice().SetBestPh(ph)
+			if ph, err = n.Pending(); err != nil {
+				return -1, err
+			}
+			// a background pending-header update may have replaced the edited header: edit again
+			chk := types.CopyWorkObject(ph)
+			s.EditPending(chk)
+			if chk.WorkObjectHeader().SealHash() == ph.WorkObjectHeader().SealHash() && ph.ParentHash(common.ZONE_CTX) == s.Blocks[parent].Hash {
+				_ = want
+				break
+			}
+			if try > 20 {
+				return -1, fmt.Errorf("edited pending header keeps being replaced")
+			}
+			time.Sleep(10 * time.Millisecond)
+		}
 	}
 	if _, err := n.Seal(ph, wantOrder, 1<<22); err != nil {
 		return -1, err
